@@ -87,7 +87,8 @@ CHECKS = {
             "impossible; no other exception type may escape. A frame clause "
             "for left hashes that inherit through a YAML merge key (the "
             "anchored hash and its other heirs keep their value, in memory "
-            "and after dump+reload) runs under all 180 combinations.",
+            "and after dump+reload, own keys that override an inherited key "
+            "included) runs under all 180 combinations.",
             TRUST, "6/C05"),
     "C08": (True, "exploration",
             "exhaustive small-scope enumeration of segment ASTs + Hypothesis "
@@ -100,7 +101,9 @@ CHECKS = {
             "identically and be a fixed point in both notations; equality "
             "must coincide with AST equality - also when asked of one object "
             "before, between and after append()/pop(); append+pop must "
-            "restore. Random <= 6-segment ASTs extend the scope.",
+            "restore; confusable pairs (a special character inside a key vs "
+            "acting as syntax, bare and inside Collectors) must compare "
+            "unequal. Random <= 6-segment ASTs extend the scope.",
             TRUST + "The writer (vp/model/pathast.py) encodes the documented "
             "escapes and demarcation and is part of the oracle.", "6/C08"),
     "C09": (True, "exploration",
@@ -153,6 +156,8 @@ CHECKS = {
             "integers past 2**53 and 10**400) is "
             "compared with a reference table written from the statement; "
             "a Boolean against a number is textual, as the statement says; "
+            "terms holding path-special characters are evaluated through the "
+            "Processor in every escaping style; "
             "cells the documentation leaves open are Unspecified and only "
             "checked for not raising. The inverted search must be the exact "
             "complement of the plain one on every list/hash/set of ~1.2e5 "
